@@ -19,6 +19,7 @@ package scalarDistribution
 /* -------------------------------------------------------------------------- */
 
 import   "fmt"
+import   "math"
 
 import . "github.com/pbenner/autodiff"
 import . "github.com/pbenner/autodiff/statistics"
@@ -85,8 +86,8 @@ func (dist *CategoricalDistribution) Pdf(r Scalar, x ConstScalar) error {
 }
 
 func (dist *CategoricalDistribution) LogCdf(r Scalar, x ConstScalar) error {
-  r.Reset()
-  for i := 0; i <= int(x.GetFloat64()); i++ {
+  r.SetFloat64(math.Inf(-1))
+  for i := 0; i < dist.Theta.Dim() && float64(i) <= x.GetFloat64(); i++ {
     r.LogAdd(r, dist.Theta.At(i), dist.t)
   }
   return nil
